@@ -1,6 +1,7 @@
 import Utcp.Lemmas.SendInv
 import Utcp.Lemmas.Origin
 import Utcp.Lemmas.Balance
+import Utcp.Lemmas.OutSeq
 /-!
 # What a sender puts on the wire (sender side)
 
@@ -54,10 +55,24 @@ theorem wf_nrm (b : Bunch) (hr : b.bClose = true → b.closeReason < 15) (hch : 
   · intro h1 h2; simp only at h1 h2 ⊢; simp [h1, h2]
   · intro h1; simp only at h1 ⊢; simp [h1]
 
-def SentQ (sent : List Bunch) (q : Bunch) : Prop := ∃ b ∈ sent, seen q = seen b
+/-- `q` looks like a bunch in `sent` — and, if reliable, carries that bunch's channel sequence number modulo 1024 (the elements of `sent`
+carry the sequence number the sender assigned) -/
+def SentQ (sent : List Bunch) (q : Bunch) : Prop := ∃ b ∈ sent, seen q = seen b ∧ (q.bReliable = true → q.chSeq % 1024 = b.chSeq % 1024)
 
-theorem sentQ_stable (sent : List Bunch) : QStable (SentQ sent) :=
-  ⟨fun b s ⟨x, hx, he⟩ => ⟨x, hx, by rw [← he]; rfl⟩, fun b p ⟨x, hx, he⟩ => ⟨x, hx, by rw [← he]; rfl⟩⟩
+theorem makeRelative_residue (v r : Int) : MakeRelative_chseq v r % 1024 = v % 1024 := by
+  simp only [MakeRelative_chseq, BestSignedDifference_chseq]
+  omega
+
+theorem sentQ_stable (sent : List Bunch) : QStable (SentQ sent) := by
+  refine ⟨?_, ?_, ?_⟩
+  · intro b ref hr ⟨x, hx, he, hs⟩
+    refine ⟨x, hx, by rw [← he]; rfl, fun _ => ?_⟩
+    show MakeRelative_chseq b.chSeq ref % 1024 = x.chSeq % 1024
+    rw [makeRelative_residue]; exact hs hr
+  · intro b s hr ⟨x, hx, he, _⟩
+    exact ⟨x, hx, by rw [← he]; rfl, fun h => by simp only [hr] at h; cases h⟩
+  · intro b p ⟨x, hx, he, hs⟩
+    exact ⟨x, hx, by rw [← he]; rfl, hs⟩
 
 theorem SentQ.mono {sent sent' : List Bunch} {q : Bunch} (h : SentQ sent q) (hs : ∀ b ∈ sent, b ∈ sent') : SentQ sent' q := by
   obtain ⟨b, hb, he⟩ := h; exact ⟨b, hs b hb, he⟩
@@ -413,7 +428,7 @@ theorem header_some_of_zero (b : Bunch) (s : Int) (h0 : Bits) (h : encodeBunchHe
 /-- what a send appends to the send buffer is the encoding of a well-formed bunch that looks like the bunch handed to `send` -/
 theorem sent_bits_good (sent : List Bunch) (b : Bunch) (s : Int) (hdr : Bits) (h0 : Bits) (hz : encodeBunchHeader { b with chSeq := 0 } = some h0)
     (hh : encodeBunchHeader { b with chSeq := s } = some hdr) (hch : b.chIndex < 65536) (hlen : b.data.length < 8192) :
-    GoodBody (b :: sent) (hdr ++ b.data) := by
+    GoodBody ({ b with chSeq := s } :: sent) (hdr ++ b.data) := by
   obtain ⟨_, hcr⟩ := header_some_of_zero b s h0 hz
   refine ⟨[nrm { b with chSeq := s }], ?_, ?_⟩
   · simp only [bodyOf, List.flatMap_cons, List.flatMap_nil, List.append_nil]
@@ -423,52 +438,66 @@ theorem sent_bits_good (sent : List Bunch) (b : Bunch) (s : Int) (hdr : Bits) (h
   · intro x hx
     simp only [List.mem_singleton] at hx
     subst hx
-    refine ⟨wf_nrm _ hcr hch hlen, b, List.mem_cons_self, ?_⟩
-    rw [seen_wireView_nrm]
-    rfl
+    refine ⟨wf_nrm _ hcr hch hlen, { b with chSeq := s }, List.mem_cons_self, ?_, ?_⟩
+    · rw [seen_wireView_nrm]
+    · intro hr
+      have hr' : b.bReliable = true := hr
+      show (if b.bReliable = true then s else 0) % 1024 % 1024 = s % 1024
+      simp only [hr', if_true]
+      omega
 
 theorem sendCommit_einv {mb mg : Nat} (sent : List Bunch) (e : Env) (he : e.magicBits = mb ∧ e.magic = mg) (c : Conn) (b : Bunch) (h0 : Bits) (h : EInv sent c) (hchk : c.sendCheck b = .inr h0) :
-    EInv (b :: sent) (c.sendCommit e b h0).1 ∧ Adds (EP mb mg (b :: sent)) c (c.sendCommit e b h0).1 := by
+    EInv (c.tagged b :: sent) (c.sendCommit e b h0).1 ∧ Adds (EP mb mg (c.tagged b :: sent)) c (c.sendCommit e b h0).1 := by
   obtain ⟨hfit, hchi, henc⟩ := Props.C14.accepted_fits c b h0 hchk
-  have hmono : ∀ x ∈ sent, x ∈ b :: sent := fun x hx => List.mem_cons_of_mem _ hx
-  have h' : EInv (b :: sent) c := h.mono hmono
+  obtain ⟨_, x', hx', hxo⟩ := sendCommit_chan c b h0 hchk
+  have hmono : ∀ x ∈ sent, x ∈ c.tagged b :: sent := fun x hx => List.mem_cons_of_mem _ hx
+  have h' : EInv (c.tagged b :: sent) c := h.mono hmono
+  generalize htag : c.tagged b = tb at h' ⊢
   unfold Conn.sendCommit
   dsimp only
   have hs1 := (getOrCreateChan_sameN c b false)
   have hs2 := noteClose_sameN (c.getOrCreateChan b false).1 b
-  have h1 : EInv (b :: sent) ((c.getOrCreateChan b false).1.noteClose b) :=
+  have h1 : EInv (tb :: sent) ((c.getOrCreateChan b false).1.noteClose b) :=
     ⟨by rw [hs2.sendBody, hs1.sendBody]; exact h'.body, noteClose_allOKP _ b (getOrCreateChan_allOKP c b false h'.recs).1, (h'.hdr.ofSameN hs1).ofSameN hs2⟩
-  have a1 : Adds (EP mb mg (b :: sent)) c ((c.getOrCreateChan b false).1.noteClose b) :=
+  have a1 : Adds (EP mb mg (tb :: sent)) c ((c.getOrCreateChan b false).1.noteClose b) :=
     (getOrCreateChan_adds' (fun k d hd => (by cases hd)) (fun k d hd => (by cases hd)) c b false).trans (noteClose_adds _ _ b)
-  generalize (c.getOrCreateChan b false).1.noteClose b = c1 at h1 a1 ⊢
+  generalize (c.getOrCreateChan b false).1.noteClose b = c1 at h1 a1 hx' ⊢
   split
   · exact ⟨h1, a1⟩
   · rename_i x hx
+    have hxx : x = x' := by rw [hx'] at hx; exact (Option.some.inj hx).symm
+    have hxo' : x.outReliable = c.outRelOf b.chIndex := by rw [hxx]; exact hxo
     have hxo := getChan_okP c1 _ x h1.recs hx
     generalize hseqdef : (if b.bReliable = true then x.outReliable + 1 else 0 : Int) = seq
+    have htb : tb = { b with chSeq := seq } := by
+      rw [← htag, ← hseqdef]; unfold Conn.tagged Conn.nextSeq; rw [hxo']
     -- the bits appended are a good body
-    have hgood : GoodBody (b :: sent) ((if b.bReliable = true then (encodeBunchHeader { b with chSeq := seq }).getD h0 else h0) ++ b.data) := by
+    have hgood : GoodBody (tb :: sent) ((if b.bReliable = true then (encodeBunchHeader { b with chSeq := seq }).getD h0 else h0) ++ b.data) := by
+      rw [htb]
       split
       · obtain ⟨⟨hh, hhe⟩, _⟩ := header_some_of_zero b seq h0 henc
         rw [hhe]; simp only [Option.getD_some]
         exact sent_bits_good sent b seq hh h0 henc hhe (by omega) (by omega)
-      · exact sent_bits_good sent b 0 h0 h0 henc henc (by omega) (by omega)
+      · rename_i hnr
+        have hz : seq = 0 := by rw [← hseqdef]; exact if_neg hnr
+        rw [hz]
+        exact sent_bits_good sent b 0 h0 h0 henc henc (by omega) (by omega)
     generalize (if b.bReliable = true then (encodeBunchHeader { b with chSeq := seq }).getD h0 else h0) = hdr at hgood ⊢
-    have h2 : EInv (b :: sent) (if b.bReliable = true then c1.setChan b.chIndex { x with outReliable := seq } else c1) := by
+    have h2 : EInv (tb :: sent) (if b.bReliable = true then c1.setChan b.chIndex { x with outReliable := seq } else c1) := by
       split
       · exact setChan_einv _ c1 _ _ h1 hxo
       · exact h1
-    have a2 : Adds (EP mb mg (b :: sent)) c1 (if b.bReliable = true then c1.setChan b.chIndex { x with outReliable := seq } else c1) := by
+    have a2 : Adds (EP mb mg (tb :: sent)) c1 (if b.bReliable = true then c1.setChan b.chIndex { x with outReliable := seq } else c1) := by
       split
       · exact setChan_adds _ _ _ _
       · exact Adds.refl _ _
     generalize (if b.bReliable = true then c1.setChan b.chIndex { x with outReliable := seq } else c1) = c2 at h2 a2 ⊢
-    obtain ⟨p1, p2⟩ := prepareWrite_einv (b :: sent) e he c2 (hdr.length + b.data.length) h2
-    obtain ⟨w1, w2⟩ := writeInternal_einv (b :: sent) e he _ (hdr ++ b.data) p1 hgood
+    obtain ⟨p1, p2⟩ := prepareWrite_einv (tb :: sent) e he c2 (hdr.length + b.data.length) h2
+    obtain ⟨w1, w2⟩ := writeInternal_einv (tb :: sent) e he _ (hdr ++ b.data) p1 hgood
     have atot := ((a1.trans a2).trans p2).trans w2
     split
     · refine ⟨?_, (atot.emit_trans (.alloc .node) (fun d hd => by cases hd)).trans (addOutRec_adds _ _ _ _ _)⟩
-      have w1' : EInv (b :: sent) (((c2.prepareWrite e (hdr.length + b.data.length)).writeInternal e (hdr ++ b.data)).1.emit (.alloc .node)) :=
+      have w1' : EInv (tb :: sent) (((c2.prepareWrite e (hdr.length + b.data.length)).writeInternal e (hdr ++ b.data)).1.emit (.alloc .node)) :=
         ⟨w1.body, w1.recs.of_chans rfl, w1.hdr.same rfl rfl rfl⟩
       unfold Conn.addOutRec
       split
@@ -482,16 +511,28 @@ theorem sendCommit_einv {mb mg : Nat} (sent : List Bunch) (e : Env) (he : e.magi
         · exact hgood
     · exact ⟨w1, atot⟩
 
-/-- **`utcp_send_bunch`**: an accepted bunch joins the set of bunches sent; a refused one changes nothing -/
+/-- the bunches accepted so far, as the sender numbered them: `utcp_send_bunch` adds `b` if (and only if) it accepts it -/
+def Conn.sentAfter (c : Conn) (b : Bunch) (sent : List Bunch) : List Bunch :=
+  match c.sendCheck b with
+  | .inl _ => sent
+  | .inr _ => c.tagged b :: sent
+
+theorem sentAfter_mono (c : Conn) (b : Bunch) (sent : List Bunch) : ∀ x ∈ sent, x ∈ c.sentAfter b sent := by
+  intro x hx
+  unfold Conn.sentAfter
+  split
+  · exact hx
+  · exact List.mem_cons_of_mem _ hx
+
+/-- **`utcp_send_bunch`**: an accepted bunch joins the set of bunches sent, with the sequence number it was given; a refused one changes
+nothing -/
 theorem sendBunch_einv {mb mg : Nat} (sent : List Bunch) (e : Env) (he : e.magicBits = mb ∧ e.magic = mg) (c : Conn) (b : Bunch) (h : EInv sent c) :
-    EInv (b :: sent) (c.sendBunch e b).1 ∧ Adds (EP mb mg (b :: sent)) c (c.sendBunch e b).1 := by
-  have hmono : ∀ x ∈ sent, x ∈ b :: sent := fun x hx => List.mem_cons_of_mem _ hx
-  have hraw : EInv (b :: sent) (c.sendRaw e b).1 ∧ Adds (EP mb mg (b :: sent)) c (c.sendRaw e b).1 := by
-    unfold Conn.sendRaw
-    split
-    · exact ⟨h.mono hmono, Adds.refl _ _⟩
-    · rename_i h0 hchk
-      exact sendCommit_einv sent e he c b h0 h hchk
+    EInv (c.sentAfter b sent) (c.sendBunch e b).1 ∧ Adds (EP mb mg (c.sentAfter b sent)) c (c.sendBunch e b).1 := by
+  have hraw : EInv (c.sentAfter b sent) (c.sendRaw e b).1 ∧ Adds (EP mb mg (c.sentAfter b sent)) c (c.sendRaw e b).1 := by
+    unfold Conn.sendRaw Conn.sentAfter
+    cases hchk : c.sendCheck b with
+    | inl err => exact ⟨h, Adds.refl _ _⟩
+    | inr h0 => exact sendCommit_einv sent e he c b h0 h hchk
   unfold Conn.sendBunch
   generalize c.sendRaw e b = r at hraw ⊢
   obtain ⟨c', rr⟩ := r
